@@ -316,7 +316,16 @@ func runReady(sc RScenario, ca *fakeCA, settle, deadline time.Duration) (out rOu
 	}
 	ev("q:" + joinInts(p))
 
-	// clean up what can be cleaned up
+	mu.Lock()
+	evs := append([]string(nil), out.Events...)
+	rets := map[int]string{}
+	for k, v := range out.Rets {
+		rets[k] = v
+	}
+	mu.Unlock()
+
+	// clean up what can be cleaned up (after the snapshot: calls that return only because of the
+	// clean-up are not results of the scenario)
 	runCancel()
 	mu.Lock()
 	for i, ch := range relCh {
@@ -328,13 +337,6 @@ func runReady(sc RScenario, ca *fakeCA, settle, deadline time.Duration) (out rOu
 	for _, c := range cancels {
 		c()
 	}
-	mu.Lock()
-	evs := append([]string(nil), out.Events...)
-	rets := map[int]string{}
-	for k, v := range out.Rets {
-		rets[k] = v
-	}
-	mu.Unlock()
 	out.Events, out.Rets = evs, rets
 	sort.Ints(out.Pending)
 	return out
